@@ -172,7 +172,10 @@ pub enum Op {
     RemoveEntry { s: u8, k: KeySel },
     RemoveMany { s: u8, n: u32, stride: u16 },
     Entry { s: u8, k: KeySel, chain: Chain },
-    RawEntryMut { s: u8, k: KeySel, how: RawHow, chain: Chain },
+    /// `probe_other`: if the key is absent, the raw lookup is made for ANOTHER absent key (by
+    /// precomputed hash) and the key is then inserted through that vacant handle - a raw vacant
+    /// handle is not bound to the key it was looked up with
+    RawEntryMut { s: u8, k: KeySel, how: RawHow, chain: Chain, #[serde(default)] probe_other: bool },
     RawEntry { s: u8, k: KeySel, how: RawHow },
     Iterate { s: u8, kind: IterKind, clone_at: Option<u16>, extra: u8, write: Option<u32> },
     Drain { s: u8, take: Option<u16>, forget: bool },
